@@ -568,6 +568,91 @@ fn stream_clip(rep: &mut Report, drv: &mut Driver, rng: &mut Rng, n: usize) -> R
     Ok(())
 }
 
+/// containment (`surround` / `inside`) of targets whose box is only known late: a polyline / polygon /
+/// path whose points are themselves references, registered as soon as it is read but without a box
+/// until those references resolve. Every order of the siblings must succeed with the same geometry.
+fn stream_contain(rep: &mut Report, drv: &mut Driver, rng: &mut Rng, n: usize) -> Result<(), String> {
+    let mut corr = Stream::new(
+        "doc/containment-order",
+        "correspondence",
+        "4-6 siblings: two boxes (one placed relative to the other), a polyline / polygon / path whose points refer to them, an element that surrounds the poly (with a margin) or lies inside a box, elements placed relative to those, in a random order: implementation vs model",
+    );
+    let mut orc = Stream::new(
+        "oracle/containment-permutation",
+        "oracle",
+        "the same siblings in all n! orders (n <= 5; 24 random orders of 6): every order succeeds (the document is satisfiable: it is in dependency order as generated) and every element's output attributes keyed by id are the same",
+    );
+    let lim = Limits::default();
+    for _ in 0..n {
+        let h = |rng: &mut Rng, lo: i64, hi: i64| fstr_ref(rng.range(lo, hi) as f64 / 2.0);
+        let mut sib: Vec<X> = vec![];
+        sib.push(X::leaf("rect", &[("id", "a"), ("xy", &format!("{} {}", h(rng, -10, 10), h(rng, -10, 10))), ("wh", &format!("{} {}", 4 + rng.below(10), 4 + rng.below(10)))]));
+        sib.push(X::leaf("rect", &[("id", "b"), ("xy", &format!("#a{}", rng.pick(&["|h 20", "|v 12", "@br 8 6", "|H 7"]))), ("wh", &format!("{} {}", 4 + rng.below(10), 6 + rng.below(20)))]));
+        let (l1, l2, l3) = (*rng.pick(&["r", "c", "tl", "b"]), *rng.pick(&["t", "l", "c", "br"]), *rng.pick(&["bl", "r", "c"]));
+        match rng.below(3) {
+            0 => sib.push(X::leaf("polyline", &[("id", "p"), ("points", &format!("#a@{l1} #b@{l2}"))])),
+            1 => sib.push(X::leaf("polygon", &[("id", "p"), ("points", &format!("#a@{l1} #b@{l2} #a@{l3}"))])),
+            _ => sib.push(X::leaf("path", &[("id", "p"), ("d", &format!("M #a@{l1} L #b@{l2} L #b@{l3}"))])),
+        }
+        let margin = rng.pick(&["0", "2", "1 3", "0.5"]).to_string();
+        match rng.below(3) {
+            0 => sib.push(X::leaf("rect", &[("id", "s"), ("surround", "#p"), ("margin", &margin)])),
+            1 => sib.push(X::leaf("ellipse", &[("id", "s"), ("surround", "#p #a"), ("margin", &margin)])),
+            _ => sib.push(X::leaf("rect", &[("id", "s"), ("inside", "#b"), ("margin", "1")])),
+        }
+        if rng.chance(1, 2) { sib.push(X::leaf("rect", &[("id", "f"), ("xy", &format!("#s{}", rng.pick(&["|h 2", "@bl", "|V 1"]))), ("wh", "3 2")])); }
+        if rng.chance(1, 3) { sib.push(X::leaf("circle", &[("id", "q"), ("cxy", "#p@c"), ("r", "1.5")])); }
+        let k = sib.len();
+        let mut order: Vec<usize> = (0..k).collect();
+        shuffle(rng, &mut order);
+        let doc: Vec<X> = order.iter().map(|&i| sib[i].clone()).collect();
+        let xml = doc_xml(&doc);
+        corr.case(&xml, true, || json!({"document": xml}));
+        let imp = run_impl(&xml, lim);
+        let mdl = run_model(drv, &doc, lim)?;
+        corr.tally(&format!("impl={}", imp.status));
+        if mdl.outside { corr.skipped += 1; } else {
+            match agree(&imp, &mdl) {
+                Ok(()) => corr.exact += 1,
+                Err(what) => rep.violation(Violation { kind: "correspondence", stream: corr.name.clone(), signature: "containment-order".into(), what, replay: json!({"input": xml}), confirmed_on_impl: false }),
+            }
+        }
+        orc.case(&xml, true, || json!({"siblings": sib.iter().map(|x| { let mut s = String::new(); x.xml(&mut s); s }).collect::<Vec<_>>()}));
+        let orders: Vec<Vec<usize>> = if k <= 5 { all_perms(k) } else {
+            let mut v = vec![(0..k).collect::<Vec<usize>>()];
+            for _ in 0..23 { let mut o: Vec<usize> = (0..k).collect(); shuffle(rng, &mut o); v.push(o); }
+            v
+        };
+        let mut base: Option<(String, BTreeMap<String, String>)> = None;
+        let mut bad = None;
+        for o in orders {
+            let d: Vec<X> = o.iter().map(|&i| sib[i].clone()).collect();
+            let x = doc_xml(&d);
+            let r = run_impl(&x, lim);
+            if r.status != "ok" {
+                bad = Some((format!("a satisfiable document fails in this order of its siblings: {}", r.status), json!({"input": x, "input_other_order": base.as_ref().map(|b| b.0.clone())})));
+                break;
+            }
+            let m = by_id(&r.events);
+            match &base {
+                None => base = Some((x, m)),
+                Some((x0, m0)) => if *m0 != m {
+                    let id = m0.keys().find(|k| m0.get(*k) != m.get(*k)).cloned().unwrap_or_default();
+                    bad = Some((format!("#{id} differs between two orders of the same siblings: {:?} vs {:?}", m0.get(&id), m.get(&id)), json!({"input": x, "input_other_order": x0})));
+                    break;
+                }
+            }
+        }
+        match bad {
+            None => orc.exact += 1,
+            Some((what, replay)) => rep.violation(Violation { kind: "oracle", stream: orc.name.clone(), signature: "C10:order-dependent".into(), what, replay, confirmed_on_impl: true }),
+        }
+    }
+    rep.streams.push(corr);
+    rep.streams.push(orc);
+    Ok(())
+}
+
 /// corpus: {"input", "input_other_order"?, "expect_by_id"?, "unsatisfiable"?, "signature"}
 fn corpus(rep: &mut Report) {
     let mut st = Stream::new("corpus", "oracle", "files of /verif/corpus/C10 (past failures): geometry equals the recorded boxes / both orders agree / unsatisfiable input fails");
@@ -642,5 +727,6 @@ pub fn run(rep: &mut Report, tier: &str, seed: u64) -> Result<(), String> {
     stream_dags(rep, &mut drv, &mut rng.fork(), n)?;
     stream_unsat(rep, &mut drv, &mut rng.fork(), u)?;
     stream_clip(rep, &mut drv, &mut rng.fork(), u / 2)?;
+    stream_contain(rep, &mut drv, &mut rng.fork(), u / 2)?;
     Ok(())
 }
